@@ -2,6 +2,9 @@
 
 use crate::driver::{self, Campaign, Ctx, Evidence, Outcome, Tier};
 use crate::fmt::{FmtCampaign, Focus, OutcomeExhaustive};
+use crate::queue::concurrent::ConcCampaign;
+use crate::queue::gate::StepOut;
+use crate::queue::{self, QGen, QGenKind, QRule, QueueCampaign, QueueCase, QOp};
 use crate::writer::oracle::Rule;
 use crate::writer::{gen_default, FaultTree, Seam, WriterCampaign};
 
@@ -82,8 +85,134 @@ pub fn run(id: &'static str, tier: Tier, seed: u64) -> Option<Evidence> {
             Some(ev)
         }
         "C05" | "C06" | "C07" | "C19" => Some(run_writer(id, tier, seed, &ctx, sh)),
+        "C08" | "C09" | "C10" | "C11" | "C15" | "C16" => Some(run_queue(id, tier, seed, &ctx, sh)),
         _ => None,
     }
+}
+
+fn qgen(emit_w: u32, clone_w: u32, drop_w: u32, step_w: u32, err_w: u32, panic_w: u32, handler_p: f64) -> QGenKind {
+    QGenKind::General(QGen {
+        max_ops: 40,
+        emit_w,
+        clone_w,
+        drop_w,
+        step_w,
+        err_w,
+        panic_w,
+        handler_p,
+    })
+}
+
+fn queue_campaigns(id: &str) -> Vec<(QueueCampaign, u32, u32)> {
+    match id {
+        "C08" => vec![(QueueCampaign::new("queue-deliver", QRule::Deliver, qgen(5, 2, 2, 4, 1, 1, 0.3)), 4_000, 150_000)],
+        "C09" => vec![
+            (QueueCampaign::new("queue-endings", QRule::Shutdown, QGenKind::Endings), 2_000, 70_000),
+            (QueueCampaign::new("queue-shutdown-general", QRule::Shutdown, qgen(5, 2, 3, 3, 1, 1, 0.3)), 1_000, 30_000),
+        ],
+        "C10" => vec![(QueueCampaign::new("queue-isolation", QRule::Isolation, qgen(8, 1, 0, 2, 2, 2, 0.3)), 3_000, 100_000)],
+        "C11" => vec![(QueueCampaign::new("queue-panics", QRule::Panics, qgen(5, 1, 1, 5, 1, 5, 0.3)), 2_500, 60_000)],
+        "C15" => vec![(QueueCampaign::new("queue-counters", QRule::Counters, qgen(8, 1, 1, 3, 1, 2, 0.3)), 3_000, 100_000)],
+        "C16" => vec![(QueueCampaign::new("queue-handler", QRule::Handler, qgen(5, 1, 1, 5, 6, 0, 0.75)), 3_000, 100_000)],
+        _ => vec![],
+    }
+}
+
+/// {outcomes}^n patterns: n emits, then n steps (for C11 / C16 enumeration)
+fn pattern_enumeration(outcomes: &[StepOut], max_n: usize, caps: &[Option<usize>], stop_positions: bool) -> Vec<QueueCase> {
+    let mut out = Vec::new();
+    for n in 1..=max_n {
+        let total = outcomes.len().pow(n as u32);
+        for code in 0..total {
+            let mut c = code;
+            let pat: Vec<StepOut> = (0..n)
+                .map(|_| {
+                    let o = outcomes[c % outcomes.len()];
+                    c /= outcomes.len();
+                    o
+                })
+                .collect();
+            for cap in caps {
+                if let Some(cc) = cap {
+                    if *cc + 1 < n {
+                        continue;
+                    }
+                }
+                // stop position: the final drop happens after `d` steps (0..=n), or never (implicit ending)
+                let drops: Vec<Option<usize>> = if stop_positions { (0..=n).map(Some).collect() } else { vec![None] };
+                for d in drops {
+                    for handler in [false, true] {
+                        let mut ops: Vec<QOp> = (0..n).map(|i| QOp::Emit(i as u16)).collect();
+                        for (i, o) in pat.iter().enumerate() {
+                            if d == Some(i) {
+                                ops.push(QOp::Drop(0));
+                            }
+                            ops.push(QOp::Step(*o));
+                        }
+                        out.push(QueueCase { cap: *cap, handler, ops });
+                    }
+                }
+            }
+        }
+    }
+    out
+}
+
+fn run_queue(id: &'static str, tier: Tier, seed: u64, ctx: &Ctx, sh: u32) -> Evidence {
+    let (level, rule) = match id {
+        "C08" => ("exploration", "generated histories {emit on handle h, clone, drop handle, let the wrapped sink finish one metric with ok/err/panic} on bounded (1,2,3,5,8,16) and unbounded queues over a gated wrapped sink; the harness owns the worker's schedule through the gate and a FIFO spec model predicts every hand-over (exactly once, acceptance order); liveness = within W of a state in which the model proves the hand-over due. Concurrent mode: 2..8 producers on their own clones, per-producer acknowledged sequence must equal the delivered one (OS schedules sampled). Non-trivial: a handle dropped while another handle emits later, or >=2 handles emitting alternately; concurrent: producers interleaved in the sink log; distinct by case hash."),
+        "C09" => ("exploration", "endings: capacity x occupancy at the final drop (0..=capacity, incl. completely full with one metric in the worker's hand) x outcome pattern {ok,err,panic}^k x position of the drop relative to steps; all accepted metrics handed over in order, wrapped sink dropped (Drop observed) within W, every drop(handle) returns while the gate is held closed, nothing after release. The space capacity<=3 x occupancy x {ok,err,panic}^k is enumerated exhaustively. Non-trivial: final drop with >=1 metric still queued; distinct by case hash."),
+        "C10" => ("exploration", "histories with the gate closed for long stretches (no handle drops): emit returns within W with Ok(len) iff model occupancy < capacity else Err; occupancy never exceeds capacity; unbounded never refuses; wrapped sink never runs on a producer thread; scripted errors/panics never surface. Concurrent closed-gate mode: min(attempts, cap) <= accepted <= cap+1. Non-trivial: a bounded history that reaches occupancy == capacity and later accepts again; distinct by case hash."),
+        "C11" => ("fault_enumeration", "outcome patterns over {ok,err,panic} with emits before/between steps and the final drop at a generated point; all non-panicking accepted metrics delivered once in order, panicking one not re-delivered, later emits still accepted and delivered, panics() never exceeds and within W reaches the number of injected panics; {ok,err,panic}^n for n<=5 x stop position enumerated exhaustively. Non-trivial: >=2 consecutive panics, or a panic on the first/last queued metric, or a panic with a stop pending; distinct by case hash."),
+        "C15" => ("exploration", "queue histories with accepted and refused emits, steps, panics, clones; after every operation (a quiescent point: the worker holds the next metric or nothing is due) submitted == #Ok emits, drained == #hand-overs, queued == their difference. Sampler mode: producers + a thread reading queued() then submitted(): queued <= submitted and <= attempts. Non-trivial: history with >=1 refused emit and >=1 panic; sampler runs with interleaving or a transient drained > submitted observed; distinct by case hash."),
+        _ => ("fault_enumeration", "outcome patterns {ok, err(kind, token)}^n with and without a configured handler: each error is followed, before the next metric is entered, by exactly one handler call carrying that error, on the worker thread; never for Ok; without a handler later metrics are delivered in order. {ok,err}^n for n<=8 enumerated exhaustively. Non-trivial: >=2 errors with an Ok between them; distinct by case hash."),
+    };
+    let mut ev = Evidence::new(id, level, tier, seed, rule);
+    ev.assume("liveness ('eventually') is decided as: within W (default 4 s) of a state in which the spec model proves the event due and the harness holds every gate that could delay it");
+    for (c, q, t) in queue_campaigns(id) {
+        if !driver::run_random(&c, &ev, ctx, scale(tier.pick(q, t)), sh) {
+            return ev;
+        }
+    }
+    let all3 = [StepOut::Ok, StepOut::Err(1), StepOut::Panic];
+    match id {
+        "C08" => {
+            let c = ConcCampaign { name: "queue-deliver-concurrent", focus: QRule::Deliver };
+            driver::run_random(&c, &ev, ctx, scale(tier.pick(40, 600)), 4);
+            ev.set_exhaustive(false);
+        }
+        "C09" => {
+            let c = QueueCampaign::new("queue-endings-enumerated", QRule::Shutdown, QGenKind::Endings);
+            let cases = queue::ending_enumeration(tier.pick(3, 4), &all3);
+            driver::run_list(&c, &ev, ctx, cases.into_iter(), sh);
+            ev.set_extra("exhaustive_part", serde_json::json!("capacity 1..=3 (thorough: 4) and unbounded x occupancy 0..=capacity x worker holding a metric x {ok,err,panic}^k x handler on/off: enumerated completely; random campaigns are not exhaustive"));
+            ev.set_exhaustive(false);
+        }
+        "C10" => {
+            let c = ConcCampaign { name: "queue-isolation-concurrent", focus: QRule::Isolation };
+            driver::run_random(&c, &ev, ctx, scale(tier.pick(30, 500)), 4);
+        }
+        "C11" => {
+            let c = QueueCampaign::new("queue-panics-enumerated", QRule::Panics, QGenKind::Endings);
+            let cases = pattern_enumeration(&all3, tier.pick(4, 6), &[None, Some(2), Some(8)], true);
+            driver::run_list(&c, &ev, ctx, cases.into_iter(), sh);
+            ev.set_extra("exhaustive_part", serde_json::json!("{ok,err,panic}^n for n<=4 (thorough: 6) x final-drop position x capacities {unbounded,2,8} x handler on/off: enumerated completely"));
+            ev.set_exhaustive(false);
+        }
+        "C15" => {
+            let c = ConcCampaign { name: "queue-counters-sampler", focus: QRule::Counters };
+            driver::run_random(&c, &ev, ctx, scale(tier.pick(20, 400)), 2);
+        }
+        "C16" => {
+            let c = QueueCampaign::new("queue-handler-enumerated", QRule::Handler, QGenKind::Endings);
+            let cases = pattern_enumeration(&[StepOut::Ok, StepOut::Err(3)], tier.pick(7, 8), &[None], false);
+            driver::run_list(&c, &ev, ctx, cases.into_iter(), sh);
+            ev.set_extra("exhaustive_part", serde_json::json!("{ok,err}^n for n<=7 (thorough: 8) x handler on/off: enumerated completely"));
+            ev.set_exhaustive(false);
+        }
+        _ => {}
+    }
+    ev
 }
 
 fn writer_campaigns(id: &str) -> Vec<(WriterCampaign, u32, u32)> {
@@ -163,5 +292,16 @@ pub fn replay(id: &'static str, campaign: &str, case: &serde_json::Value, tier: 
         }
     }
     try_camp!(FaultTree { depth: 10 });
+    for pid in ["C08", "C09", "C10", "C11", "C15", "C16"] {
+        for (c, _, _) in queue_campaigns(pid) {
+            try_camp!(c);
+        }
+    }
+    try_camp!(QueueCampaign::new("queue-endings-enumerated", QRule::Shutdown, QGenKind::Endings));
+    try_camp!(QueueCampaign::new("queue-panics-enumerated", QRule::Panics, QGenKind::Endings));
+    try_camp!(QueueCampaign::new("queue-handler-enumerated", QRule::Handler, QGenKind::Endings));
+    try_camp!(ConcCampaign { name: "queue-deliver-concurrent", focus: QRule::Deliver });
+    try_camp!(ConcCampaign { name: "queue-isolation-concurrent", focus: QRule::Isolation });
+    try_camp!(ConcCampaign { name: "queue-counters-sampler", focus: QRule::Counters });
     Err(format!("unknown campaign '{}'", campaign))
 }
